@@ -23,10 +23,11 @@
 //   - a detector that is read continuously and its twin that is read only at the
 //     sample points agree at every settled point, and back-to-back reads agree.
 //
-// Wall-clock only ever separates "never" from "late": intervals are 5-60 ms, the
-// slack on every deadline is 1.5 s, and a miss is re-executed alone (and, for the
-// kinds a load spike can produce, once more with all times x4) before it is
-// reported.
+// Wall-clock only ever separates "never" from "late": a polling cycle is 15-60 ms,
+// the slack on every deadline is 1.5 s, and a miss is re-executed alone before it
+// is believed. The kinds of miss that one stalled poll can produce on a correct
+// detector (a healthy archetype briefly reported failed) must in addition survive
+// two runs with the time-out x25 during which a canary goroutine saw no starvation.
 package c19
 
 import (
@@ -36,6 +37,8 @@ import (
 	"log"
 	"net"
 	"net/rpc"
+	"os"
+	"runtime"
 	"strings"
 	"sync"
 	"sync/atomic"
@@ -137,23 +140,29 @@ type scenario struct {
 
 func (sc scenario) String() string {
 	var b strings.Builder
-	fmt.Fprintf(&b, "interval=%v timeout=%v id=%v slots=%d:", sc.interval, sc.timeout, archID(sc.idKind), sc.slots)
+	fmt.Fprintf(&b, "interval=%v timeout=%v id=%v slots=%d:", sc.interval, sc.timeout, idKinds[sc.idKind], sc.slots)
 	for i, e := range sc.events {
 		fmt.Fprintf(&b, " %d.%s", i, e)
 	}
 	return b.String()
 }
 
-func archID(kind int) tla.Value {
+var idKinds = [...]string{"number", "string", "tuple"}
+
+var worldSeq int64
+
+// archID builds the monitored archetype's identifier. Its shape is drawn; its
+// content is unique to this process and run, so that if a listening port freed
+// by this case is picked up by another test process, that stranger's monitor can
+// only ever answer "archetype not found" — never "alive" — for it.
+func archID(kind int, uniq int64) tla.Value {
 	switch kind {
 	case 0:
-		return tla.MakeNumber(1)
+		return tla.MakeNumber(int32(1 + uniq&0x3fffffff))
 	case 1:
-		return tla.MakeNumber(42)
-	case 2:
-		return tla.MakeString("srv1")
+		return tla.MakeString(fmt.Sprintf("srv-%d", uniq))
 	default:
-		return tla.MakeTuple(tla.MakeString("node"), tla.MakeNumber(3))
+		return tla.MakeTuple(tla.MakeString(fmt.Sprintf("node-%d", uniq)), tla.MakeNumber(3))
 	}
 }
 
@@ -161,10 +170,10 @@ func genScenario(t *rapid.T) scenario {
 	sc := scenario{
 		interval: time.Duration(rapid.IntRange(5, 20).Draw(t, "intervalMs")) * time.Millisecond,
 		timeout:  time.Duration(rapid.IntRange(10, 40).Draw(t, "timeoutMs")) * time.Millisecond,
-		idKind:   rapid.IntRange(0, 3).Draw(t, "idKind"),
+		idKind:   rapid.IntRange(0, len(idKinds)-1).Draw(t, "idKind"),
 		slots:    rapid.IntRange(1, 2).Draw(t, "slots"),
 	}
-	n := rapid.IntRange(3, 9).Draw(t, "events")
+	n := rapid.IntRange(3, 10).Draw(t, "events")
 	monStarted, monStopped, archStarted, archEnded := false, false, false, false
 	detStarted := make([]bool, sc.slots)
 	mode := make([]pmode, sc.slots)
@@ -185,18 +194,18 @@ func genScenario(t *rapid.T) scenario {
 			}
 		}
 		if !monStarted {
-			add(3, event{kind: evMonStart})
+			add(5, event{kind: evMonStart})
 		}
 		if monStarted && !monStopped {
 			add(1, event{kind: evMonStop})
 		}
 		if !archStarted {
-			add(3, event{kind: evArchStart})
+			add(5, event{kind: evArchStart})
 		}
 		if archStarted && !archEnded {
-			add(3, event{kind: evArchEnd, end: endPanic})
-			add(2, event{kind: evArchEnd, end: endError})
-			add(2, event{kind: evArchEnd, end: endDone})
+			add(2, event{kind: evArchEnd, end: endPanic})
+			add(1, event{kind: evArchEnd, end: endError})
+			add(1, event{kind: evArchEnd, end: endDone})
 			add(1, event{kind: evArchEnd, end: endStop})
 		}
 		for s := 0; s < sc.slots; s++ {
@@ -207,7 +216,12 @@ func genScenario(t *rapid.T) scenario {
 			}
 			// path faults only matter to a detector that exists or will exist
 			for _, m := range []pmode{mPass, mSever, mBlackhole} {
-				if m != mode[s] {
+				if m == mode[s] {
+					continue
+				}
+				if m == mPass {
+					add(3, event{kind: evProxy, slot: s, mode: m}) // broken paths tend to heal
+				} else {
 					add(1, event{kind: evProxy, slot: s, mode: m})
 				}
 			}
@@ -245,9 +259,9 @@ func genScenario(t *rapid.T) scenario {
 type rd int
 
 const (
-	rAbort rd = iota
-	rAlive    // FALSE
-	rFailed   // TRUE
+	rAbort  rd = iota
+	rAlive     // FALSE
+	rFailed    // TRUE
 	rOther
 )
 
@@ -292,6 +306,7 @@ type det struct {
 	bgViol   atomic.Pointer[violation]
 	maxRead  time.Duration
 	interval time.Duration
+	stall    *int64 // the world's canary: total time this process was seen starved (ns, atomic)
 
 	everValue int32 // atomic: 1 once a read returned a value
 
@@ -316,6 +331,7 @@ type world struct {
 	timeout  time.Duration
 	cycle    time.Duration
 	id       tla.Value
+	sentinel tla.Value
 	t0       time.Time
 
 	mon       *resources.Monitor
@@ -331,6 +347,9 @@ type world struct {
 	archSt   bool
 	archEnd  bool
 	endedBy  endKind
+
+	stall  int64 // ns, atomic; written by the canary
+	maxGap int64 // ns, atomic; worst single overshoot
 
 	slots []*slot
 	viol  []violation
@@ -360,27 +379,39 @@ func (w *world) fail(kind, format string, a ...any) {
 }
 
 func throwawayIface() distsys.ArchetypeInterface {
-	arch := distsys.MPCalArchetype{
-		Name: "Reader", Label: "Reader.l",
+	return distsys.NewMPCalContext(tla.MakeNumber(99), doneArchetype("Reader")).IFace()
+}
+
+type scaling struct{ interval, timeout int }
+
+func doneArchetype(name string) distsys.MPCalArchetype {
+	return distsys.MPCalArchetype{
+		Name: name, Label: name + ".l",
 		JumpTable: distsys.MakeMPCalJumpTable(distsys.MPCalCriticalSection{
-			Name: "Reader.l", Body: func(distsys.ArchetypeInterface) error { return distsys.ErrDone }}),
+			Name: name + ".l", Body: func(distsys.ArchetypeInterface) error { return distsys.ErrDone }}),
 		ProcTable: distsys.MakeMPCalProcTable(),
 		PreAmble:  func(distsys.ArchetypeInterface) {},
 	}
-	return distsys.NewMPCalContext(tla.MakeNumber(99), arch).IFace()
 }
 
-func newWorld(sc scenario, scale int, count bool) (*world, error) {
+func newWorld(sc scenario, scale scaling, count bool) (*world, error) {
+	uniq := int64(os.Getpid())*1000003 + atomic.AddInt64(&worldSeq, 1)
 	w := &world{
 		sc:       sc,
-		interval: sc.interval * time.Duration(scale),
-		timeout:  sc.timeout * time.Duration(scale),
-		id:       archID(sc.idKind),
+		interval: sc.interval * time.Duration(scale.interval),
+		timeout:  sc.timeout * time.Duration(scale.timeout),
+		id:       archID(sc.idKind, uniq),
+		sentinel: tla.MakeString(fmt.Sprintf("c19-sentinel-%d", uniq)),
 		t0:       time.Now(),
 		count:    count,
 	}
 	w.cycle = w.interval + w.timeout
 	w.mon = resources.NewMonitor("127.0.0.1:1") // real address chosen at monitor start
+	// a second archetype that has already finished under this monitor: asking for it
+	// tells this monitor from a stranger that happens to listen on the same port
+	if err := w.mon.RunArchetype(distsys.NewMPCalContext(w.sentinel, doneArchetype("Sentinel"))); err != nil {
+		return nil, err
+	}
 
 	w.cmd = make(chan endKind, 1)
 	w.entered = make(chan struct{})
@@ -388,7 +419,7 @@ func newWorld(sc scenario, scale int, count bool) (*world, error) {
 	cmd, entered := w.cmd, w.entered
 	body := func(iface distsys.ArchetypeInterface) error {
 		once.Do(func() { close(entered) })
-		tm := time.NewTimer(2 * time.Millisecond)
+		tm := time.NewTimer(4 * time.Millisecond)
 		defer tm.Stop()
 		select {
 		case c := <-cmd:
@@ -430,6 +461,7 @@ func newWorld(sc scenario, scale int, count bool) (*world, error) {
 				iface:    throwawayIface(),
 				id:       w.id,
 				interval: w.interval,
+				stall:    &w.stall,
 				fd: resources.NewFailureDetector(
 					func(tla.Value) string { return addr },
 					resources.WithFailureDetectorPullInterval(w.interval),
@@ -443,17 +475,32 @@ func newWorld(sc scenario, scale int, count bool) (*world, error) {
 }
 
 // read performs one critical section that reads fd[id], the way MPCalContext
-// drives a resource.
-func (d *det) read() (rd, time.Duration) {
+// drives a resource, and applies the world-independent checks to the answer
+// (under the same lock, so that "already answered" is exact with two readers).
+func (d *det) read() (r rd, dur time.Duration, v *violation) {
 	d.mu.Lock()
 	defer d.mu.Unlock()
+	r, dur = d.read1()
+	return r, dur, d.basic(r, dur)
+}
+
+func (d *det) read1() (rd, time.Duration) {
 	sub, err := d.fd.Index(d.iface, d.id)
 	if err != nil {
 		return rOther, 0
 	}
 	t := time.Now()
+	stall0 := atomic.LoadInt64(d.stall)
 	v, err := sub.ReadValue(d.iface)
 	dur := time.Since(t)
+	if dur > d.interval+slack/2 {
+		// suspiciously slow: give the canary a moment to report, then take off the time
+		// during which the whole process demonstrably did not run
+		time.Sleep(10 * time.Millisecond)
+		if st := time.Duration(atomic.LoadInt64(d.stall) - stall0); st > 0 && st < dur {
+			dur -= st
+		}
+	}
 	if dur > d.maxRead {
 		d.maxRead = dur
 	}
@@ -507,12 +554,12 @@ func (d *det) background() {
 			return
 		default:
 		}
-		r, dur := d.read()
-		d.bgReads++
-		if v := d.basic(r, dur); v != nil {
+		_, _, v := d.read()
+		atomic.AddInt64(&d.bgReads, 1)
+		if v != nil {
 			d.bgViol.CompareAndSwap(nil, v)
 		}
-		time.Sleep(200 * time.Microsecond)
+		time.Sleep(time.Millisecond)
 	}
 }
 
@@ -576,8 +623,8 @@ func (w *world) started() []*det {
 
 // sample reads d once and applies every check that does not depend on the phase.
 func (w *world) sample(d *det) rd {
-	r, dur := d.read()
-	if v := d.basic(r, dur); v != nil {
+	r, _, v := d.read()
+	if v != nil {
 		w.fail(v.kind, "%s", v.msg)
 	}
 	if v := d.bgViol.Load(); v != nil {
@@ -615,8 +662,8 @@ func (w *world) settle(t0 time.Time) {
 		d         *det
 		x         exp
 		phase     int
-		deadline  time.Time
-		holdUntil time.Time
+		deadline  time.Duration // on the stall-compensated clock below
+		holdUntil time.Duration
 	}
 	ds := w.started()
 	if len(ds) == 0 {
@@ -626,11 +673,14 @@ func (w *world) settle(t0 time.Time) {
 	sts := make([]*st, len(ds))
 	for i, d := range ds {
 		x := w.expect(d.slot)
-		sts[i] = &st{d: d, x: x, deadline: t0.Add(time.Duration(boundCycle)*w.cycle + slack)}
+		sts[i] = &st{d: d, x: x, deadline: time.Duration(boundCycle)*w.cycle + slack}
 		if x == xUnspec {
-			sts[i].deadline = t0.Add(time.Duration(boundCycle)*w.cycle + 10*time.Millisecond)
+			sts[i].deadline = time.Duration(boundCycle)*w.cycle + 10*time.Millisecond
 		}
 		w.class("expect." + x.String())
+		if x == xFailed {
+			w.class("expect.failed.because." + w.whyShort(d.slot))
+		}
 	}
 	// setAside: the listed finding explains this miss; stop judging this detector in this phase.
 	setAside := func(s *st, what string) bool {
@@ -649,14 +699,32 @@ func (w *world) settle(t0 time.Time) {
 		s.phase = done
 		return true
 	}
+	// Deadlines run on a clock that only advances while this loop is evidently
+	// running: the time between two consecutive looks is counted up to a cap, so a
+	// stall of the whole process (seen: 1.6 s on a busy VM) cannot by itself make an
+	// answer "late". The clock starts when the loop does, i.e. just after t0.
+	var active time.Duration
+	lastLook := time.Now()
+	capLook := 25*time.Millisecond + w.interval // one read of a not yet initialised detector sleeps one interval
+	tick := func() time.Duration {
+		n := time.Now()
+		d := n.Sub(lastLook)
+		if d > capLook {
+			d = capLook
+		}
+		active += d
+		lastLook = n
+		return active
+	}
 	for {
 		allDone := true
 		for _, s := range sts {
 			if s.phase == done {
 				continue
 			}
+			tick()
 			r := w.sample(s.d)
-			now := time.Now()
+			now := tick()
 			switch s.x {
 			case xAlive:
 				if r == rFailed && s.d.aliveSpan {
@@ -668,14 +736,14 @@ func (w *world) settle(t0 time.Time) {
 				switch s.phase {
 				case converge:
 					if r == rAlive {
-						s.phase, s.holdUntil = hold, now.Add(hold_)
-					} else if now.After(s.deadline) {
-						w.fail("never-alive", "%s still reads %v %v after the last event (bound: %d cycles of %v + %v slack) although the archetype runs, the monitor serves and the path passes",
-							s.d.name, r, now.Sub(t0).Round(time.Millisecond), boundCycle, w.cycle, slack)
+						s.phase, s.holdUntil = hold, now+hold_
+					} else if now > s.deadline {
+						w.fail("never-alive", "%s still reads %v %v after the last event (%v of it observed running; bound: %d cycles of %v + %v slack) although the archetype runs, the monitor serves and the path passes",
+							s.d.name, r, time.Since(t0).Round(time.Millisecond), now.Round(time.Millisecond), boundCycle, w.cycle, slack)
 						s.phase = done
 					}
 				case hold:
-					if !now.Before(s.holdUntil) {
+					if now >= s.holdUntil {
 						s.phase = done
 					}
 				}
@@ -683,11 +751,11 @@ func (w *world) settle(t0 time.Time) {
 				switch s.phase {
 				case converge:
 					if r == rFailed {
-						s.phase, s.holdUntil = hold, now.Add(hold_)
-					} else if now.After(s.deadline) {
+						s.phase, s.holdUntil = hold, now+hold_
+					} else if now > s.deadline {
 						if !setAside(s, fmt.Sprintf("still reads %v", r)) {
-							w.fail("never-failed", "%s still reads %v %v after the last event (bound: %d cycles of %v + %v slack) although %s",
-								s.d.name, r, now.Sub(t0).Round(time.Millisecond), boundCycle, w.cycle, slack, w.why(s.d.slot))
+							w.fail("never-failed", "%s still reads %v %v after the last event (%v of it observed running; bound: %d cycles of %v + %v slack) although %s",
+								s.d.name, r, time.Since(t0).Round(time.Millisecond), now.Round(time.Millisecond), boundCycle, w.cycle, slack, w.why(s.d.slot))
 						}
 						s.phase = done
 					}
@@ -697,12 +765,12 @@ func (w *world) settle(t0 time.Time) {
 							w.fail("not-stay-failed", "%s read %v after it had read TRUE (failed), although %s", s.d.name, r, w.why(s.d.slot))
 						}
 						s.phase = done
-					} else if !now.Before(s.holdUntil) {
+					} else if now >= s.holdUntil {
 						s.phase = done
 					}
 				}
 			case xUnspec:
-				if now.After(s.deadline) {
+				if now > s.deadline {
 					w.class("unspecified.observed." + r.String())
 					s.phase = done
 				}
@@ -714,7 +782,8 @@ func (w *world) settle(t0 time.Time) {
 		if len(w.viol) > 0 || allDone {
 			break
 		}
-		time.Sleep(time.Millisecond)
+		time.Sleep(2 * time.Millisecond)
+		tick()
 	}
 	if len(w.viol) > 0 {
 		return
@@ -762,6 +831,18 @@ func (w *world) why(s *slot) string {
 	return "?"
 }
 
+func (w *world) whyShort(s *slot) string {
+	switch {
+	case w.archEnd:
+		return "archetype-ended-" + w.endedBy.String()
+	case s.mode != mPass:
+		return "path-" + s.mode.String()
+	case !w.monStart:
+		return "monitor-never-started"
+	}
+	return "monitor-closed"
+}
+
 func freeAddr() (string, error) {
 	l, err := net.Listen("tcp", "127.0.0.1:0")
 	if err != nil {
@@ -776,7 +857,8 @@ func (w *world) startMonitor() {
 	for try := 0; try < 6; try++ {
 		addr, err := freeAddr()
 		if err != nil {
-			w.infra = "no free port: " + err.Error()
+			w.infra = "no-free-port"
+			w.logf("no free port: %v", err)
 			return
 		}
 		w.mon.ListenAddr = addr
@@ -803,11 +885,10 @@ func (w *world) startMonitor() {
 				// make sure it is this monitor that answers, not a stranger who got the port
 				cl := rpc.NewClient(c)
 				var st resources.ArchetypeState
-				call := cl.Go("MonitorRPCReceiver.IsAlive", &w.id, &st, nil)
+				call := cl.Go("MonitorRPCReceiver.IsAlive", &w.sentinel, &st, nil)
 				select {
 				case <-call.Done:
-					var se rpc.ServerError
-					if call.Error == nil || errors.As(call.Error, &se) {
+					if call.Error == nil {
 						up = true
 					}
 				case <-time.After(2 * time.Second):
@@ -828,7 +909,7 @@ func (w *world) startMonitor() {
 		}
 		w.logf("monitor could not listen on %s (%v); trying another port", addr, err)
 	}
-	w.infra = "monitor could not listen"
+	w.infra = "monitor-could-not-listen"
 }
 
 func (w *world) apply(e event) (t0 time.Time) {
@@ -846,17 +927,22 @@ func (w *world) apply(e event) (t0 time.Time) {
 				w.logf("ListenAndServe returned %v", err)
 			}
 		case <-time.After(5 * time.Second):
-			w.infra = "ListenAndServe did not return after Close"
+			w.infra = "listen-and-serve-did-not-return-after-close"
 		}
 		w.monErr = nil
 		w.monStop = true
+		// the port is free from now on and may be taken by anybody: new connections
+		// through the proxies fail at once, as they would against the closed port
+		for _, s := range w.slots {
+			s.px.setUpstream("")
+		}
 	case evArchStart:
 		mon, ctx, done := w.mon, w.ctx, w.archDone
 		go func() { done <- mon.RunArchetype(ctx) }()
 		select {
 		case <-w.entered:
 		case <-time.After(10 * time.Second):
-			w.infra = "archetype did not start"
+			w.infra = "archetype-did-not-start"
 		}
 		w.archSt = true
 	case evArchEnd:
@@ -872,7 +958,7 @@ func (w *world) apply(e event) (t0 time.Time) {
 				w.fail("run-archetype-result", "RunArchetype returned %v for an archetype that ended by %v", err, e.end)
 			}
 		case <-time.After(10 * time.Second):
-			w.infra = "archetype did not end"
+			w.infra = "archetype-did-not-end"
 		}
 		w.archEnd, w.endedBy = true, e.end
 		w.class("end." + e.end.String())
@@ -883,14 +969,10 @@ func (w *world) apply(e event) (t0 time.Time) {
 		}
 		w.refresh() // the flags must be current before the first read
 		for _, d := range s.dets {
-			// the first Index creates the single detector and starts its loop
-			t := time.Now()
-			r := w.sample(d)
-			if r == rAbort {
+			// the first Index creates the single detector and starts its loop; the read
+			// finds it uninitialised and must abort within one interval (checked in read)
+			if r := w.sample(d); r == rAbort {
 				w.class("read.first-aborts")
-				if el := time.Since(t); el > w.interval+slack {
-					w.fail("read-latency", "%s: first read took %v", d.name, el)
-				}
 			}
 			if d.heavy {
 				d.stopBg, d.bgDone = make(chan struct{}), make(chan struct{})
@@ -900,7 +982,8 @@ func (w *world) apply(e event) (t0 time.Time) {
 	case evProxy:
 		s := w.slots[e.slot]
 		if err := s.px.setMode(e.mode, e.refuse); err != nil {
-			w.infra = "proxy could not listen again: " + err.Error()
+			w.infra = "proxy-port-lost-while-refusing"
+			w.logf("proxy could not listen again: %v", err)
 		}
 		s.mode = e.mode
 		w.class("path." + e.mode.String())
@@ -939,7 +1022,7 @@ func (w *world) cleanup() {
 	select {
 	case <-fin:
 	case <-time.After(20 * time.Second):
-		w.infra = "detector Close did not return"
+		w.infra = "detector-close-did-not-return"
 	}
 	if w.archSt && !w.archEnd {
 		st := make(chan struct{})
@@ -948,7 +1031,7 @@ func (w *world) cleanup() {
 		case <-st:
 			<-w.archDone
 		case <-time.After(10 * time.Second):
-			w.infra = "archetype did not stop"
+			w.infra = "archetype-did-not-stop"
 		}
 	}
 	if w.monStart && !w.monStop {
@@ -973,9 +1056,9 @@ type result struct {
 	gap   time.Duration // worst scheduling overshoot seen by the canary
 }
 
-// canary measures how late a 1 ms sleep wakes up: a direct reading of whether
+// canary measures how late a 2 ms sleep wakes up: a direct reading of whether
 // this process is being starved while the case runs.
-func canary(stop chan struct{}, out *time.Duration, done chan struct{}) {
+func (w *world) canary(stop, done chan struct{}) {
 	defer close(done)
 	for {
 		select {
@@ -984,21 +1067,34 @@ func canary(stop chan struct{}, out *time.Duration, done chan struct{}) {
 		default:
 		}
 		t := time.Now()
-		time.Sleep(time.Millisecond)
-		if g := time.Since(t) - time.Millisecond; g > *out {
-			*out = g
+		time.Sleep(2 * time.Millisecond)
+		g := time.Since(t) - 2*time.Millisecond
+		if g > 5*time.Millisecond {
+			atomic.AddInt64(&w.stall, int64(g))
+		}
+		if int64(g) > atomic.LoadInt64(&w.maxGap) {
+			atomic.StoreInt64(&w.maxGap, int64(g))
 		}
 	}
 }
 
-func runScenario(sc scenario, scale int, count bool) result {
+func runScenario(sc scenario, scale scaling, count bool) result {
+	g0 := runtime.NumGoroutine()
+	defer func() {
+		// everything a case starts must be gone before the next one: observe, do not judge
+		for i := 0; i < 100 && runtime.NumGoroutine() > g0; i++ {
+			time.Sleep(5 * time.Millisecond)
+		}
+		if n := runtime.NumGoroutine(); n > g0 && count {
+			vstat.ClassN("observed.goroutines-left-after-case", int64(n-g0))
+		}
+	}()
 	w, err := newWorld(sc, scale, count)
 	if err != nil {
-		return result{infra: err.Error()}
+		return result{infra: "setup-failed"}
 	}
-	var gap time.Duration
 	cstop, cdone := make(chan struct{}), make(chan struct{})
-	go canary(cstop, &gap, cdone)
+	go w.canary(cstop, cdone)
 	for i, e := range sc.events {
 		w.logf("event %d: %s", i, e)
 		w.class("event." + strings.SplitN(e.String(), "(", 2)[0])
@@ -1013,28 +1109,43 @@ func runScenario(sc scenario, scale int, count bool) result {
 			break
 		}
 	}
+	if len(w.viol) > 0 {
+		for _, s := range w.slots {
+			fmt.Fprintf(&w.trace, "  proxy of slot %d, most recent:\n%s", s.idx, s.px.recent())
+		}
+	}
 	w.cleanup()
 	close(cstop)
 	<-cdone
-	return result{viol: w.viol, infra: w.infra, trace: w.trace.String(), nt: w.nt, gap: gap}
+	return result{viol: w.viol, infra: w.infra, trace: w.trace.String(), nt: w.nt, gap: time.Duration(atomic.LoadInt64(&w.maxGap))}
 }
 
-func sameKind(a, b []violation) bool {
-	for _, x := range a {
-		for _, y := range b {
+// commonKind returns the first violation of b whose kind also occurs in a.
+func commonKind(a, b []violation) (violation, bool) {
+	for _, y := range b {
+		for _, x := range a {
 			if x.kind == y.kind {
-				return true
+				return y, true
 			}
 		}
 	}
-	return false
+	return violation{}, false
+}
+
+var missSamples int32
+
+// sampleMiss keeps a few set-aside misses (with their traces) in the evidence.
+func sampleMiss(s string) {
+	if atomic.AddInt32(&missSamples, 1) <= 4 {
+		vstat.Sample(s)
+	}
 }
 
 func TestC19Detector(t *testing.T) {
 	rapid.Check(t, func(t *rapid.T) {
 		vstat.Case()
 		sc := genScenario(t)
-		r := runScenario(sc, 1, true)
+		r := runScenario(sc, scaling{1, 1}, true)
 		if r.infra != "" {
 			vstat.Class("infra." + r.infra)
 			return
@@ -1050,32 +1161,51 @@ func TestC19Detector(t *testing.T) {
 		// a miss: run the same case again, alone, before believing it
 		vstat.Class("miss.first-run." + r.viol[0].kind)
 		time.Sleep(300 * time.Millisecond)
-		r2 := runScenario(sc, 1, false)
+		r2 := runScenario(sc, scaling{1, 1}, false)
 		if r2.infra != "" {
 			vstat.Class("infra." + r2.infra)
 			return
 		}
-		if !sameKind(r.viol, r2.viol) {
+		v, ok := commonKind(r.viol, r2.viol)
+		if !ok {
 			vstat.Class("miss.not-reproduced")
-			vstat.Sample("miss not reproduced: " + sc.String() + "\n" + r.viol[0].msg)
+			sampleMiss(fmt.Sprintf("miss not reproduced (scheduling overshoot %v): %s\n%s\n%s", r.gap, sc, r.viol[0].msg, r.trace))
 			return
 		}
-		if loadSensitive[r2.viol[0].kind] {
-			// these can be produced by one stalled poll; a real defect survives slower clocks
-			time.Sleep(300 * time.Millisecond)
-			r3 := runScenario(sc, 4, false)
-			if r3.infra != "" {
-				vstat.Class("infra." + r3.infra)
+		if loadSensitive[v.kind] {
+			// One poll that stalls for a time-out produces these on a correct detector, and
+			// with time-outs of 10-40 ms a busy machine does that. A defect in the detector
+			// does not care how long the time-out is: run the same order again with the
+			// time-out x25 (interval x2) and require the same kind of miss twice, in runs
+			// during which this process was demonstrably not starved.
+			esc := scaling{2, 25}
+			confirmed := 0
+			for attempt := 0; attempt < 5 && confirmed < 2; attempt++ {
+				time.Sleep(300 * time.Millisecond)
+				r3 := runScenario(sc, esc, false)
+				if r3.infra != "" {
+					vstat.Class("infra." + r3.infra)
+					return
+				}
+				v3, ok := commonKind([]violation{v}, r3.viol)
+				if !ok {
+					vstat.Class("miss.gone-with-long-timeout")
+					sampleMiss(fmt.Sprintf("miss reproduced at the drawn times but gone with time-out x25 (scheduling overshoot %v): %s\n%s\n%s", r2.gap, sc, v.msg, r2.trace))
+					return
+				}
+				if r3.gap >= sc.timeout*time.Duration(esc.timeout)/4 {
+					vstat.Class("miss.escalated-run-disturbed")
+					continue
+				}
+				confirmed++
+				v, r2 = v3, r3
+			}
+			if confirmed < 2 {
+				vstat.Class("miss.inconclusive-machine-too-busy")
 				return
 			}
-			if !sameKind(r2.viol, r3.viol) {
-				vstat.Class("miss.gone-at-4x-times")
-				vstat.Sample("miss reproduced once but gone with times x4: " + sc.String() + "\n" + r.viol[0].msg)
-				return
-			}
-			r2 = r3
 		}
 		t.Fatalf("C19 violated: %s\n  %s\ncase: %s\ntrace of the confirming run (worst scheduling overshoot %v):\n%s",
-			r2.viol[0].kind, r2.viol[0].msg, sc, r2.gap, r2.trace)
+			v.kind, v.msg, sc, r2.gap, r2.trace)
 	})
 }
